@@ -318,6 +318,20 @@ def rng_for(seed: int, *parts) -> "random.Random":
     return random.Random(f"{seed}|" + "|".join(str(p) for p in parts))
 
 
+def noise_opts(seed: int, pid: str, key) -> list[str]:
+    """Options the property does not talk about, drawn per case from a stream of their own: a docstring style, a type
+    source preference, a warning setting (the generated sources carry plain-text docstrings without types at most)."""
+    rng = rng_for(seed, pid, "noise-options", key)
+    out: list[str] = []
+    if rng.random() < 0.6:
+        out += ["--docstyle", rng.choice(["plaintext", "google", "numpydoc", "rest"])]
+    if rng.random() < 0.35:
+        out += ["-tsp", rng.choice(["code", "docstring"])]
+    if rng.random() < 0.35:
+        out += ["-tsw", rng.choice(["warn", "ignore"])]
+    return out
+
+
 def stderr(*a) -> None:
     print(*a, file=sys.stderr)
 
@@ -361,6 +375,11 @@ def drive(chk: Check, cases: list[Case], judge, per_proc: int = 4, steps="reach"
                 continue
             for v in viols:
                 chk.violation(v, case, rec)
+    optsets: dict = {}
+    for c in cases:
+        k = " ".join(c.opts) or "(none)"
+        optsets[k] = optsets.get(k, 0) + 1
+    chk.extra["option_sets_run"] = dict(sorted(optsets.items()))
     total = len(cases)
     nd = sum(chk.discarded.values())
     if total and nd > max(2, total // 5):
